@@ -154,6 +154,47 @@ INFO = {
     'C19-set-asynchronous-inherits-before-explicit': ('asynchronous=False passed to a node extending an asynchronous pipeline', '-'),
     'C20-sliding-window-return-inside-full-branch-c20': ('DaskStream.sliding_window(n>=2) upstream of an asynchronous node', 'step contracts of the nodes re-exported by dask.py tagged C20'),
     'C20-gather-does-not-await-emission': ('anything asynchronous after gather()', 'awaited-emission clause extended to `raise gen.Return`'),
+    # round 5 ------------------------------------------------------------------------------------------------------------
+    'C01-zip-pops-newest-entry': ('one input of zip more than one element ahead of the other', 'obligation on the pop-all loop of zip.update: the oldest entry of every buffer is consumed (popleft)'),
+    'C01-starmap-args-prepended': ('starmap with extra positional arguments', '-'),
+    'C02-union-drops-emit-result': ('an asynchronous consumer behind union', '-'),
+    'C02-rate-limit-returns-emission-unawaited': ('any awaitable consumer behind rate_limit', '-'),
+    'C03-map-async-tests-result-not-results': ('a mapped coroutine returning a falsy value, consumers that return awaitables', '-'),
+    'C03-sink-awaits-only-coroutines-and-futures': ('a sink callback returning an awaitable that is neither a coroutine nor a Future', 'narrower awaitable predicates (is_coroutine / is_future imply isawaitable, not the converse) in the sink contract'),
+    'C04-retain-refs-stops-at-first-refless-entry': ('metadata whose first entry has no ref and a later one has', '-'),
+    'C04-zip-releases-before-emit': ('zip as the last holder of buffered references, a consumer that does not retain synchronously', 'H1 at every emission (what is handed over is still held) and the obligation "released only after handed downstream"'),
+    'C05-rate-limit-retain-after-wait': ('an element with a ref that has to wait in rate_limit', '-'),
+    'C05-emit-retains-once-regardless-of-fanout': ('fan-out >= 2 with reference-counted metadata', '-'),
+    'C06-var-zero-test-on-sum': ('values summing to 0 in a non-empty prefix', '-'),
+    'C06-zip-pack-literals-while-to-if-c06': ('an operation between streaming dataframes with >= 2 stream operands before a literal one', 'bounded pack_literals enumeration registered for the dataframe properties'),
+    'C07-full-result-drop-by-old-index': ('window(n).full() with index labels that repeat between batches', 'window.full() with a per-batch index in the bounded enumeration'),
+    'C07-groupby-columns-truthiness': ('windowed groupby over integer column labels, selected label 0', 'integer-labelled windowed groupby in the bounded enumeration'),
+    'C08-emit-iterates-live-downstreams-c08': ('a consumer of a time-window node that detaches itself while being served', '-'),
+    'C08-partition-flush-pops-callback-of-next-batch': ('partition with timeout and key: a batch of the same key started while the flush is in flight', 'frame clause: a finished flush leaves buffers and timers of the next batch alone'),
+    'C09-kafka-commit-closure-late-binding': ('two batches handed out before the first completes', 'the closure variable `part` of poll_kafka is modelled as "whichever batch was handed out last"'),
+    'C09-kafka-batch-excludes-high-offset': ('any non-empty batch: its last message is dropped', '-'),
+    'C10-combine-latest-remove-pops-last-metadata': ('removing a non-last input of combine_latest with metadata', 'topology contracts of combine_latest tagged for C01 / C10'),
+    'C10-collect-flush-clears-metadata-before-emit': ('collect.flush with reference-counted metadata', '-'),
+    'C11-accumulate-state-after-emit-c11': ('a consumer that pushes the next batch from inside its callback', '-'),
+    'C11-window-getitem-loses-subclass': ('a column selected from expanding()', 'wiring contract for Window.__getitem__ (type(self) survives) next to the bounded expanding checks'),
+    'C12-emit-skips-bookkeeping-without-consumers': ('the state polled through current_value of a node nobody has subscribed to', 'truthiness of a reference to a sized container depends on its length (was constant true: an unsound pruning); clause "a node without consumers still remembers the element"'),
+    'C12-window-map-partitions-loses-start': ('an elementwise operation on a resumed window object before aggregating', 'wiring contract for Window.map_partitions (subscript / type(self) hooks)'),
+    'C13-blocking-emit-clears-flag-before-await': ('blocking emit from another thread, an element that waits in rate_limit, a consumer that emits further', 'public Stream.emit contracts tagged for the delivery properties (entry point of every pipeline)'),
+    'C13-emit-iterates-live-downstreams-c13': ('>= 2 consumers of rate_limit, one detaching itself', '-'),
+    'C14-refcounter-runs-callback-inline': ('a completion callback that emits into the same pipeline', 'clause "the callback is posted to the loop, never run inside release"; RefCounter.release tagged for every property whose nodes release'),
+    'C14-emit-result-overwritten-by-list-result': ('>= 2 consumers of latest: an async sink before a node returning a list', '-'),
+    'C15-emit-iterates-live-downstreams-c15': ('a consumer that detaches itself while being served, with a later sibling', '-'),
+    'C15-combine-latest-remove-guard-membership': ('disconnecting any input of a combine_latest with default emit_on', '-'),
+    'C16-rate-limit-retain-after-wait-c16': ('an element with a ref waiting in rate_limit whose consumer fails', '-'),
+    'C16-accumulate-first-element-drops-metadata-c16': ('accumulate without start, first element with a ref, asynchronous consumer that fails', '-'),
+    'C17-filenames-trailing-separator-no-star': ('filenames("dir/") on an existing directory', 'filenames.__init__ under contract (z3 strings: the directory becomes the pattern matching its entries)'),
+    'C17-textfile-drops-whitespace-chunks': ('a read that returns only whitespace (e.g. the delimiter alone)', '-'),
+    'C18-from-tcp-handler-ignores-stop': ('a connection kept open across stop() that sends >= 2 more messages', 'segment contracts for the per-connection coroutine of from_tcp (nested class inside run)'),
+    'C18-periodic-stop-rebinds-flag': ('any stop() of a running PeriodicDataFrame / Random', 'lifecycle contracts for PeriodicDataFrame.start / stop / _cb (c_periodic.py); writing them exposed F25'),
+    'C19-rate-limit-no-ensure-io-loop': ('rate_limit as the first loop-requiring node of a pipeline without a loop', 'constructor contracts that demand ensure_io_loop tagged C19'),
+    'C19-kafka-counter-without-source-loop': ('a batched Kafka source declared asynchronous', 'clause "the counter runs on the loop of its source" tagged C19'),
+    'C20-dask-starmap-drops-metadata': ('a Dask starmap between scatter and gather, a holding node behind it', '-'),
+    'C20-dask-union-wrapper-deleted': ('union between scatter() and gather()', '-'),
 }
 
 
